@@ -9,6 +9,17 @@ NOTE = ("Trusted base: clang 14 front end + clang::CFG, tools/xzfacts.cc, sa/*.p
         "of the property is NOT decided (see DESIGN.md section 4).")
 
 CLAIMED = {
+ "C17": dict(
+  text="Structural data-safety clauses of xz's file handling: finite-domain path-sensitive analysis of `success` through "
+       "io_close with each primitive forced to fail (failed close/sync/sparse-tail write never lets io_close_src see success), "
+       "call order attrs -> sync -> close target -> close/unlink source, unlink(src) only with success && !keep after close, "
+       "junk target removed on failure, both fsyncs; coder_normal sets success only after LZMA_STREAM_END, a successful final "
+       "write and the trailing-input test; unlink/open who-may-call rules with folded O_CREAT|O_EXCL/0600 constants and the "
+       "dev/inode comparison; signal handlers' async-signal-safety closure and sig_atomic_t writes, block/unblock pairing, "
+       "signals_exit last; every failure return of the I/O layer sets the exit status (known finding: EPIPE branch of "
+       "io_write_buf). File-system state after kill -9 is NOT decided.",
+  technique="finite-domain path-sensitive dataflow, must-pass/dominance rules, call-graph closure, who-may-call",
+  ref="4/C17"),
  "C12": dict(
   text="Must-pass and dominance rules on the encoder state machines and update functions: a finished Block gets its Index "
        "Record (with the sizes of that Block) before the next Block starts; LZMA_SYNC_FLUSH never ends a Block; no Block or "
